@@ -125,6 +125,17 @@ add("C15", "model_checking",
     "known root are not reported separately for that input.",
     "bounded exhaustive enumeration of single-member deviations with an invariant checked on every state", "2/C15")
 
+add("C17", "model_checking",
+    "Exhaustive sweep: eight household scenarios (couples with children incl. a self-sufficient child = two needs units in one household, "
+    "retired couple, single, single parent with/without maintenance, pensioner, three generations) x grids of wages, partner wage, rent, "
+    "wealth and pension points that cross the break-even points of the three priority checks x change dates >= 2015, simulated through the "
+    "real API; invariant on every person of every state: no ALG II/Buergergeld together with Wohngeld or Kinderzuschlag, no Grundsicherung "
+    "with any of these, Kinderzuschlag only where a Kinderzuschlag priority flag holds, every Bedarfsgemeinschaft inside one Wohngeld "
+    "part-household, one regime per Bedarfsgemeinschaft. The run fails as vacuous unless all regimes are visited.",
+    "Grid values and scenarios as listed in the evidence bound; a person 'receives' a group-level benefit when the group-level column is "
+    "positive in that person's row.",
+    "bounded exhaustive sweep of the input grid with a safety invariant checked in every state; non-vacuity measured", "2/C17")
+
 NOT_APPLICABLE = []
 
 
